@@ -49,8 +49,9 @@ type engAct struct {
 	Mode string   `json:"mode"`
 }
 
-var engNames = []string{"/a", "/a/b", "/a/b/c", "/d"}
-var engDNames = []string{"/a", "/a/b", "/a/b/c", "/a/b/c/x", "/d", "/d/y", "/e"}
+// the last names differ only in the (non-minimal) encoding of a segment number: Component.String() prints both as seg=1
+var engNames = []string{"/a", "/a/b", "/a/b/c", "/d", "/d/50=%01"}
+var engDNames = []string{"/a", "/a/b", "/a/b/c", "/a/b/c/x", "/d", "/d/y", "/e", "/d/50=%01", "/d/50=%00%01"}
 
 // data wires and their digest ids: id = 2*index(dname) + k, k in {1,2}
 type engData struct {
